@@ -155,10 +155,17 @@ impl LinkFlowState<role::SenderMarker> {
         );
 
         if let Some(link_credit_rcv) = flow.link_credit {
+            // delivery-count is a serial number (RFC 1982) that wraps around at 2^32, so
+            // the delivery limit must be computed with wrapping arithmetic. A limit that is
+            // behind delivery-count_snd (a stale flow) leaves no credit.
             let link_credit = delivery_count_rcv
-                .saturating_add(link_credit_rcv)
-                .saturating_sub(state.delivery_count);
-            state.link_credit = link_credit;
+                .wrapping_add(link_credit_rcv)
+                .wrapping_sub(state.delivery_count);
+            state.link_credit = if link_credit > u32::MAX / 2 {
+                0
+            } else {
+                link_credit
+            };
         }
 
         // available
